@@ -176,6 +176,30 @@ func ruleMonitorDiscipline(c *Ctx, r *Rule) {
 					r.Note("consumer-side: %s writes %s.%s: %s", name, typ, f, reason)
 					continue
 				}
+				// structurally consumer-side: the list is re-sliced to a strict sub-list of itself
+				// (x = x[:len(x)-k], x = x[k:]): elements are only taken away, nobody waits for that
+				if sl, isSl := a.val.(*ssa.Slice); isSl && isLoadOfField(sl.X, pkgPath, typ, f) {
+					shrinks := false
+					if sl.High != nil {
+						hf := lin(sl.High)
+						if hf.k <= -1 && len(hf.t) == 1 {
+							for key, cnt := range hf.t {
+								if key.isLen && cnt == 1 && isLoadOfField(key.v, pkgPath, typ, f) {
+									shrinks = true
+								}
+							}
+						}
+					}
+					if sl.Low != nil {
+						if k, isK := constInt(sl.Low); isK && k >= 1 {
+							shrinks = true
+						}
+					}
+					if shrinks {
+						r.Note("consumer-side: %s shrinks %s.%s", name, typ, f)
+						continue
+					}
+				}
 				n[name]++
 				key := fmt.Sprintf("%s|write|%s.%s|%s#%d", base, typ, f, name, n[name])
 				root := refOf(a.base).root
